@@ -47,7 +47,13 @@ impl Program {
             if !in_domain_margin(st.op, &re, margin) {
                 return None;
             }
-            let r = apply_ref(st.op, &a, u);
+            let mut r = apply_ref(st.op, &a, u);
+            // composite interface functions: + propagated bound of their defining expression
+            if let Some(x) = defining_bound(st.op, &a, u) {
+                if x.c.iter().all(|c| c.is_finite()) {
+                    r.e = r.e.add(&x);
+                }
+            }
             if !r.v.c.iter().all(|c| c.is_finite()) || !r.e.c.iter().all(|c| c.is_finite()) {
                 return None;
             }
